@@ -151,7 +151,10 @@ def r3_generated_once(chk: Check):
     chk.require(rets == ["(not config.__xpm__._sealed, config)"], chk.fkey(pre, "sealed nodes are not regenerated"), f"Sealer.preprocess returns {rets}: a sealed configuration must not be visited again (its paths were generated at its own submission)", chk.loc(pre.module, pre.node))
     # memoised walk: one visit per configuration object (shared sub-configuration -> one position)
     f = tree.func("core.objects", "ConfigWalk.__call__")
-    chk.require("if xid in self.visited:" in src(f.node), chk.fkey(f, "one visit per configuration"), "the walk must visit each configuration object once", chk.loc(f.module, f.node))
+    gg = CFG(f.node)
+    rdd = ReachingDefs(gg)
+    memo = [n for n in gg.live if n.kind == "test" and rdd.canon(n.ast, n) == "id(x) in self.visited"]
+    chk.require(len(memo) == 1, chk.fkey(f, "one visit per configuration"), "the walk must visit each configuration object once", chk.loc(f.module, f.node))
 
 
 def r4_reproducible(chk: Check):
